@@ -872,4 +872,30 @@ example : (judge { mode := .noIds } (.post .absent .anon .init) { status := .cod
 example : (judge { mode := .legacy } (.post (.x 1) .anon .init) { status := .code 200, hdr := some (.x 2) }).1 = some .hdrDifferent := by decide
 example : (judge { mode := .legacy } (.delete (.x 1) .anon) { status := .code 204, srv := [.x 1] }).1 = some .notClosed := by decide
 
+/-! ## totality of the replay -/
+
+/-- The operations of these configurations' alphabet (what the harness generates for them). -/
+def inScope (s : State) : Op → Bool
+  | .post (.s k) _ _ => s.mode == .noIds || (1 ≤ k && k ≤ s.next)
+  | .post _ _ _ | .release _ | .get _ _ | .delete _ _ | .other _ _ | .tick _ | .fault _ => true
+  | _ => false
+
+/-- **The replay is total on the alphabet**: the model answers every operation in scope (so a `bad-op` of the
+driver in a `legacy` / `noids` case can only come from an operation outside the alphabet). -/
+theorem modelOp_total (s : State) (op : Op) (h : inScope s op = true) : ∃ r, modelOp s op = some r := by
+  cases op <;> simp only [inScope] at h <;> simp only [modelOp]
+  case post ref u k =>
+    cases hm : s.mode <;> cases ref <;> simp [hm, tempName] at h ⊢
+    all_goals first
+      | (cases k <;> simp)
+      | (split <;> first | (cases k <;> simp) | skip)
+    all_goals simp_all
+  case release k => split <;> (try split) <;> simp
+  case get ref u => cases s.mode <;> simp
+  case delete ref u => cases s.mode <;> simp
+  case other ref u => cases s.mode <;> simp
+  case tick n => simp
+  case fault f => simp
+  all_goals simp at h
+
 end Sessions.Eph
